@@ -151,7 +151,19 @@ def check_timer(model, rep, sx):
     dnf = spec.guard_dnf('current_time >= self.start_time and current_time - self.start_time <= self.duration')
     tt = []
     ok = True
+    from sa.sx import Bsym, implies
     for g, v, ln in paths:
+        if isinstance(v, Bsym):
+            # a comparison result returned through a local: its truth may already be decided by the path's guards,
+            # otherwise the path splits on it
+            if implies(g, v.guard):
+                v = Bv(True)
+            elif implies(g, v.guard.negate()):
+                v = Bv(False)
+            else:
+                tt.append((list(g) + [v.guard], True))
+                tt.append((list(g) + [v.guard.negate()], False))
+                continue
         if not isinstance(v, Bv):
             ok = False
         else:
